@@ -114,3 +114,26 @@ def block_of(stmt):
 def next_stmt(stmt):
     b = block_of(stmt); i = [k for k, x in enumerate(b) if x is stmt][0]
     return b[i + 1] if i + 1 < len(b) else None
+
+def truth_uses(fn, pred):
+    """expressions e with pred(e) that are used for their truth value inside fn (if/while/IfExp tests, operands of
+    and/or/not, comprehension conditions) — i.e. where a falsy-but-present value (0, '', empty user object) is
+    treated like an absent one.  Comparisons (`is None`, `==`) are not truth uses."""
+    out = []
+    def visit_test(t):
+        if isinstance(t, ast.BoolOp):
+            for v in t.values: visit_test(v)
+        elif isinstance(t, ast.UnaryOp) and isinstance(t.op, ast.Not): visit_test(t.operand)
+        elif pred(t): out.append(t)
+    for n in own_nodes(fn):
+        if isinstance(n, (ast.If, ast.While, ast.IfExp)): visit_test(n.test)
+        elif isinstance(n, ast.Assert): visit_test(n.test)
+        elif isinstance(n, ast.comprehension):
+            for c in n.ifs: visit_test(c)
+        elif isinstance(n, ast.BoolOp):
+            # value position (x or default / x and y): every operand but the last is tested for truth
+            for v in n.values[:-1]: visit_test(v)
+    seen = set(); uniq = []
+    for e in out:
+        if id(e) not in seen: seen.add(id(e)); uniq.append(e)
+    return uniq
